@@ -312,14 +312,14 @@ def c18_subsets(seed, n):
         return [list(c) for k in range(1, 13) for c in itertools.combinations(TWELVE, k)]
     subs = [[t] for t in TWELVE] + [[u for u in TWELVE if u != t] for t in TWELVE]
     subs += [['Clone', 'Copy'], ['PartialEq', 'Eq'], ['PartialOrd', 'Ord'], ['Ord', 'PartialEq', 'Eq'], ['Into', 'Deref'], ['Default', 'Debug']]
-    r.shuffle(subs)
-    subs = subs[:n]
+    subs += [['PartialOrd', 'Ord'], ['PartialOrd', 'Ord', 'Eq'], ['Clone', 'Copy', 'Default'], ['Eq'], ['DerefMut', 'Clone', 'Copy', 'Eq', 'Default']]
     while len(subs) < n + 4:
         k = r.randrange(1, 12)
         subs.append(sorted(r.sample(TWELVE, k), key=TWELVE.index))
     return subs
 
-def c18(seed, n, inproc=2):
+def c18(seed, n, inproc=None):
+    inproc = inproc if inproc is not None else (6 if n < 4095 else 40)
     fails = []
     stats = collections.Counter()
     subs = c18_subsets(seed, n)
@@ -343,8 +343,11 @@ def c18(seed, n, inproc=2):
     # in-process: expansions under a feature subset vs the all-features build
     r = random.Random('c18p-%d' % seed)
     hdir = os.path.join(vlib.ROOT, 'harness')
-    for k in range(inproc):
-        F = sorted(r.sample(TWELVE, r.randrange(1, 8)), key=TWELVE.index)
+    # feature sets for in-process expansion: coupled traits with and without their partners, then random ones
+    fixed = [['PartialOrd', 'Ord'], ['Clone', 'Copy'], ['PartialEq', 'Eq', 'Hash'], ['Ord', 'Debug', 'Into']]
+    sets = fixed[:inproc] + [sorted(r.sample(TWELVE, r.randrange(1, 9)), key=TWELVE.index) for _ in range(max(0, inproc - len(fixed)))]
+    kdiffs = []
+    for k, F in enumerate(sets):
         tdir = os.path.join(vlib.BUILD, 'c18harness')
         env = dict(os.environ, CARGO_NET_OFFLINE='true', CARGO_TARGET_DIR=tdir)
         p = subprocess.run(['cargo', 'build', '--offline', '--no-default-features', '--features', ' '.join(F)], cwd=hdir, env=env, capture_output=True, text=True, timeout=900)
@@ -352,17 +355,23 @@ def c18(seed, n, inproc=2):
             fails.append(dict(key='c18:harness:' + '+'.join(F), what='the crate does not build (as a library, hook on) with features [%s]: %s' % (' '.join(F), p.stderr[-400:]), input=' '.join(F)))
             continue
         cases = []
-        for i in range(400):
+        for i in range(300):
             pool = F if i % 3 else TWELVE
             c = gen.gen_case('c18-%d-%d-%d' % (seed, k, i), 0, pool, want_fault=False)
             cases.append(('c18-%d-%d' % (k, i), c))
         src = [(i, c.rust()) for i, c in cases]
         sub = k1.run_real(src, driver=os.path.join(tdir, 'debug', 'k1driver'))
         full = k1.run_real(src)
+        model = k1.run_model([(i, c.sx()) for i, c in cases], features=','.join(F))
+        view = k1lib.get_view('whole')
         for i, c in cases:
             stats['expansions_compared'] += 1
             named = set(c.traits)
             a, b = outcome(sub[i]), outcome(full[i])
+            # K1 under the feature set: the model run with the same features
+            v, dd = k1lib.compare_view(sub[i], model[i], view, errkind=False)
+            if v == 'diff':
+                kdiffs.append(dict(stream='c18-features', case=i, input=c.rust(), detail='features [%s]: %s' % (' '.join(F), dd)))
             partners_present = all(q in F for t in named for q in PARTNERS.get(t, []))
             if named <= set(F) and not partners_present:
                 # the property compares with the all-features build "given the same coupled partners are
@@ -378,7 +387,7 @@ def c18(seed, n, inproc=2):
                 stats['names_disabled'] += 1
                 if a[0] != 'ERR':
                     fails.append(dict(key='c18:disabled:' + k1lib_hash(c.rust()), what='naming a trait whose feature is disabled ([%s] enabled) is not rejected' % ' '.join(F), input=c.rust(), features=F))
-    return fails, [], dict(stats)
+    return fails, kdiffs, dict(stats)
 
 # ---------------------------------------------------------------- C13
 def c13(seed, n, pool=None):
@@ -409,4 +418,28 @@ def c13(seed, n, pool=None):
         elif r[0] == 'OK' and allc and gap:
             stats['known_gap_accepted'] += 1
             fails.append(dict(key='c13:copy-attrs-unchecked-with-clone', what='known gap: Copy(...) attributes below the type level are not validated when Clone is educed', input=c.rust(), classes=allc))
+    return fails, [], dict(stats)
+
+
+# ---------------------------------------------------------------- C20 (rejection side)
+def c20(seed, n, pool=None):
+    """unions: Debug / PartialEq / Hash without `unsafe` as the first parameter must be refused"""
+    pool = [t for t in (pool or list(gen.GENS.keys())) if t in ('Debug', 'PartialEq', 'Hash', 'Clone', 'Default', 'Eq', 'Copy')]
+    cases = []
+    for i in range(n):
+        c = gen.gen_case('c20-%d-%d' % (seed, i), 0, pool, want_fault=(i % 3 != 0), kinds=('union',))
+        cases.append(('c20-%d' % i, c))
+    real = k1.run_real([(i, c.rust()) for i, c in cases])
+    cls = k1.run_classes([(i, c.sx()) for i, c in cases])
+    fails = []
+    stats = collections.Counter()
+    for i, c in cases:
+        if i not in cls:
+            continue
+        allc, modgap, gap = cls[i]
+        stats['cases'] += 1
+        if 'union_without_unsafe' in allc:
+            stats['without_unsafe'] += 1
+            if outcome(real[i])[0] == 'OK':
+                fails.append(dict(key='c20:' + k1lib_hash(c.rust()), what='a union impl of Debug / PartialEq / Hash is generated without the `unsafe` marker as first parameter', input=c.rust()))
     return fails, [], dict(stats)
